@@ -46,6 +46,9 @@ pub fn run(args: &[String]) {
         let span = match rng.below(8) { 0 => 1e-9, 1 => 30.0, _ => rng.range(0.2, 3.0) };
         let back = rng.chance(0.35);
         let x0 = if rng.chance(0.3) { rng.range(-1.0, 1.0) } else { 0.0 };
+        // far from the origin one ulp of the time exceeds every absolute tolerance in the code: the landing on xend, the
+        // underflow guards and the callbacks' end points are then decided by rounding
+        let x0 = if rng.chance(0.12) { x0 + [1e3, -1e4, 1e5, -3e5][rng.below(4)] * rng.range(0.5, 1.5) } else { x0 };
         let xend = if back { x0 - span } else { x0 + span };
         let sgn = if back { -1.0 } else { 1.0 };
         let rtol_s = 10f64.powf(-rng.range(2.0, 9.0));
